@@ -704,7 +704,8 @@ theorem read_csv_write_irregular (a : List Int) (rows : List (List (Int × ℚ))
 `harness/c14_translate.py` reads them off the source on every run (`np.einsum` subscripts of
 `to_grid`; `np.mean(·, axis=0)`; the subtraction of `center`; `coefficients @ G @ coefficients.T`
 with its transposes; `centred.T @ centred / n_obs`; `np.diag` and the exponent of `norm`; the
-exact test `weights == 0.0` and the square root of `rescale`), ARE the model's definitions all the
+exact test `weights == 0.0` and the square root of `rescale`; that `normalize` hands all its
+keywords to `norm`), ARE the model's definitions all the
 commutation theorems above are about. -/
 theorem basis_formulas_match_source (N K : ℕ) (G c Φ : ℕ → ℕ → ℚ) :
     (∀ i j, FDA.Generated.BasisFormulas.toGridSrc N K c Φ i j = toGrid K c Φ i j) ∧
@@ -715,7 +716,8 @@ theorem basis_formulas_match_source (N K : ℕ) (G c Φ : ℕ → ℕ → ℚ) :
     (∀ i, FDA.Generated.BasisFormulas.normSqSrc N K G c i = normSqBasis K G c i) ∧
     FDA.Generated.BasisFormulas.normPowerSrc = normPower ∧
     (∀ w, FDA.Generated.BasisFormulas.rescaleReestimatesSrc w = rescaleReestimates w) ∧
-    FDA.Generated.BasisFormulas.rescalePowerSrc = rescalePower := by
+    FDA.Generated.BasisFormulas.rescalePowerSrc = rescalePower ∧
+    FDA.Generated.BasisFormulas.normalizeForwardsKeywords = normalizeForwardsKeywords := by
   have hinner : ∀ i l, FDA.Generated.BasisFormulas.innerSrc N K G c i l = innerBasis K G c i l := by
     intro i l
     simp only [FDA.Generated.BasisFormulas.innerSrc, FDA.NpM.matmul, FDA.NpM.transpose, innerBasis,
@@ -726,7 +728,7 @@ theorem basis_formulas_match_source (N K : ℕ) (G c Φ : ℕ → ℕ → ℚ) :
          first
            | done
            | (apply Finset.sum_congr rfl; intro a _; apply Finset.sum_congr rfl; intro b _; ring1))
-  refine ⟨?_, ?_, ?_, hinner, ?_, ?_, ?_, ?_, ?_⟩
+  refine ⟨?_, ?_, ?_, hinner, ?_, ?_, ?_, ?_, ?_, rfl⟩
   · intro i j; rfl
   · intro i k; rfl
   · intro i k; rfl
